@@ -424,6 +424,9 @@ def short_unit(u):
 
 
 def replay(v):
+    if v.get("harness"):
+        from checks import _dfs
+        return _dfs.replay(v)
     u = v["input"]["unit"]
     if "set" in u:
         st = bits_unit(u)
@@ -452,6 +455,15 @@ def run(tier, seed, only=None):
     enum.fold(rep, "hostile-fields", st)
     st = enum.run_units("checks.C12:short_unit", [{"maxlen": 5}], seed)
     enum.fold(rep, "short-strings", st)
+    # consumer half: a truncated first message makes the consumer enlarge its buffer, never skip
+    from checks import C14, _dfs
+    cfgs = C14.buffer_configs(tier)
+    if tier == "quick":
+        cfgs = cfgs[::2]
+    _dfs.run_plans(PROPERTY, "harness.consumer:ConsumerWorld",
+                   [("consumer-buffer-growth", cfgs, (0, 0, 0) if tier == "quick" else (1, 0, 1))],
+                   seed, "", [], rep=rep)
+    rep.level = "fault_enumeration"
     rep.coverage["burst_cap"] = ("bursts up to %d bits; all interior patterns up to %d bits, patterns {none, "
                                  "all, alternating} above" % (lmax, pmax))
     rep.coverage["rule"] = (
@@ -460,7 +472,9 @@ def run(tier, seed, only=None):
         "burst_cap; bit flips of inner messages re-wrapped in a valid wrapper; every truncation point of every set; "
         "for each of %d decoders every truncation and every 1/2/4-byte window of a valid response overwritten with "
         "each of %r under a traced-line and tracemalloc budget linear in the input; all strings of length <= 5 "
-        "over {00,01,7f,80,ff} into every decoder.  Distinct non-trivial = distinct (set, message, fault kind, "
+        "over {00,01,7f,80,ff} into every decoder; consumer half: the real Consumer on the (initial buffer, "
+        "maximum, message size) grid of C14 must grow its fetch size by the documented rule, fail only when the "
+        "maximum is too small and deliver the big message.  Distinct non-trivial = distinct (set, message, fault kind, "
         "burst length) / (decoder, verdict class, fault kind) classes." % (
             len(sets), len(valid_responses()), HOSTILE))
     rep.assumptions = ["compression bombs are out of scope (the statement is about length fields)",
